@@ -87,7 +87,13 @@ pub fn run(rep: &mut Report) {
         }
         let case = json!({"b": format!("{:e}", b), "m": m, "a": format!("{:e}", a), "q": q});
         let p = SetSketchParams::new(b, m, a, q);
-        let _ = std::fs::remove_file(&file);
+        // the previous iteration leaves a (longer, damaged) parameters.json behind on purpose: a dump must replace it entirely.
+        // Every third tuple additionally dumps a long-text tuple first.
+        if i % 3 == 1 {
+            let long = SetSketchParams::new(1.2345678901234567, u64::MAX - 3, 12.345678901234567, u64::MAX - 7);
+            let d3 = dir.clone();
+            let _ = catch(move || long.dump_json(&d3));
+        }
         let d2 = dir.clone();
         match catch(move || p.dump_json(&d2)) {
             Ok(Ok(())) => {}
